@@ -2,6 +2,10 @@
 
 # engine -> (regex on the driver's branch tags that makes a case non-trivial, description)
 ENGINE_RULES = {
+    "stream": (r"n=[1-9]",
+               "CNF streams of 10^4..3*10^6 clauses generated on the fly (never materialised), chunk sizes "
+               "1/64/4096/16384, read sizes 1/7/64/16384, optionally one 10^4..2*10^5-literal clause; the peak live "
+               "heap is measured by a counting global allocator; every case distinct"),
     "cnf": (r"(clauses=[1-9]|fin=E:syn|fin=E:io|multiline=1|ok=1)",
             "DIMACS CNF/WCNF/GCNF + solver log: abstract values rendered through the layout grammar, the crate's own "
             "writers, mutations, arbitrary bytes, single-token corruptions, faults at random / every offset, line "
@@ -28,6 +32,8 @@ HOOK_COMMITS = []
 
 # (name, path, description)
 ENGINES = [
+    ("stream", "harness/src/eng_stream.rs + lean/Driver/EngStream.lean",
+     "on-the-fly CNF streams parsed by the real streaming parser under a counting global allocator"),
     ("cnf", "harness/src/eng_cnf.rs + gen_cnf.rs + lean/Driver/EngCnf.lean",
      "flussab-cnf parsers/writers under many schedules vs. the View-level Lean parser models vs. independent lexer"),
     ("renumber", "harness/src/eng_renumber.rs + lean/Driver/EngRenumber.lean",
@@ -176,4 +182,16 @@ PROPS = {
              "added as their models land (their buf_len()-dependent loops get L1-level lemmas). Trusted: Lean kernel "
              "(+ bv_decide axioms through C13), harness, audit that format code uses only the modelled reader API.",
         assumptions=["chunk >= 1", "position() not wrapped"]),
+    "C10": dict(
+        module="Flussab.Props.C10", engines=[("stream", 12, 60, ""), ("reader", 1500, 40000, "")],
+        claim="The logic part is a theorem about the reader's bookkeeping: through ANY history whose requests demand "
+              "at most K bytes of look-ahead and whose chunk size stays <= C, the buffer length (Vec::len set by "
+              "resize/truncate) stays <= 3*C + K (buf_len_bounded), independent of the number of bytes streamed - "
+              "from the realign threshold 2*chunk, target_end = pos + valid + chunk, and refills only when the demand "
+              "is unsatisfied. The heap itself is measured: streams of up to 3*10^6 clauses generated on the fly, "
+              "peak live heap <= 8*chunk + 4*max_item + 64 KiB for every chunk/read size, incl. one huge clause.",
+        note="Partial by nature: Vec capacity growth policy, allocator overhead and the parsers' own vectors "
+             "(lit_buf etc., cleared per item) are outside the Lean model and only measured. The stream engine's "
+             "model side merely predicts the item count. Trusted: Lean kernel, harness, counting allocator.",
+        assumptions=["chunk >= 1", "honest source"]),
 }
